@@ -300,11 +300,19 @@ def sysv(prog, rep):
     def op_of(fn, c):
         """(sem_num, sem_op, sem_flg) of the sembuf a semop call passes"""
         a = strip_casts(c["args"][1])
+        if a is not None and a["k"] == "ref" and a.get("decl") == "local":
+            a = fn.resolve(a)               # a helper's parameter / a pointer local: what it was given
         if a is not None and a["k"] == "un" and a.get("op") == "&":
             a = strip_casts(a["e"])
         if a is None or a["k"] != "ref":
             return None
         items = None
+        if a.get("decl") == "local":
+            # an automatic sembuf with a constant initialiser that nothing writes afterwards
+            ds = [n for (b, i, n) in fn.nodes(elsewhere=True) if n["k"] == "decl" and n["name"] == a["name"] and n.get("init") is not None]
+            wr = [n for (b, i, n) in fn.nodes(elsewhere=True) if n["k"] == "asg" and root_var(n["l"]) == a["name"]]
+            if len(ds) == 1 and not wr:
+                items = (ds[0]["init"] or {}).get("items")
         if a.get("decl") == "global":
             g = u.globals.get(a["name"])
             items = ((g or {}).get("init") or {}).get("items")
@@ -340,9 +348,10 @@ def sysv(prog, rep):
             retry = False
             for body in inl:
                 for bid in body:
-                    cnd = fn.blocks[bid].cond
-                    if cnd is not None and any(n["k"] == "bin" and n["op"] in ("==", "!=") and (cv(n["r"]) == EINTR or cv(n["l"]) == EINTR) for n in walk(cnd)):
-                        retry = True
+                    blk = fn.blocks[bid]
+                    for e_ in list(blk.stmts) + ([blk.cond] if blk.cond is not None else []):
+                        if any(n["k"] == "bin" and n["op"] in ("==", "!=") and (cv(n["r"]) == EINTR or cv(n["l"]) == EINTR) for n in walk(e_)):
+                            retry = True
             if ok and not retry:
                 ok, msg = False, "line %d: semop in %s is not re-issued when it fails with EINTR" % (line(c), fname)
         rep.ob("C06.5", fn, "semop", ok, "%s: semop %+d on semaphore 0 of %s->sem_hdl, blocking, retried on EINTR (%d call site(s))" % (fname, want, sp, len(cs)) if ok else msg,
